@@ -213,7 +213,11 @@ func main() {
 			}
 		}
 	}
-	e.SolveAll(16)
+	workers := 16
+	if w, err := strconv.Atoi(os.Getenv("VCGEN_WORKERS")); err == nil && w > 0 {
+		workers = w // several checks side by side (tools/trypatch.sh): fewer solver processes each
+	}
+	e.SolveAll(workers)
 	// arithmetic lemmas the SMT solvers cannot do: checked by Lean 4 + Mathlib (thorough tier)
 	leanNote := ""
 	if files, _ := filepath.Glob(filepath.Join(*verifDir, "engine", "lemmas", *prop+".*.lean")); len(files) > 0 {
